@@ -242,7 +242,7 @@ PROPS = {
             "#[derive(Structural)] is added to ReadState / WriteState / ResponseKind so that the derived == is read as structural equality",
         ],
         "not_covered": ["kernel / peer-side observation of the bytes", "task cancellation at await points",
-                        "that a body read takes its bytes from the connection buffer followed by the socket, in that order (the contracts speak about the reader handed to the body functions): bounded stand-in c05 (model-based, API level) only"],
+                        "that the socket bytes follow the buffered ones in a body read (assumed contract chain_front of `(&mut FixedBuf).chain(stream)`; what a body read leaves in the buffer is proved: rb_exact_clause); the API-level model-based stand-in c05 observes both"],
     },
     "C08": {
         "title": "A failed response write never corrupts the connection",
